@@ -56,9 +56,40 @@ fn run_t<T: Elem + Ord>(routine: &str, t: &mut Toks) -> String {
             let idxs = t.vec_usize();
             t.bar();
             install_pivots(t);
+            // presentation of the index array (same logical contents): 0 owned, 1 reversed view of
+            // reversed storage, 2 every second element of padded storage, 3 reversed stepped, 4 shared
+            let il = t.try_next().map(|x| x.parse::<usize>().expect("il")).unwrap_or(0);
             let r = guarded(|| {
                 let mut v = parent.view_mut().into_dimensionality::<Ix1>().unwrap();
-                let m = v.get_many_from_sorted_mut(&Array1::from(idxs.clone()));
+                let rev: Vec<usize> = idxs.iter().rev().cloned().collect();
+                let pad = |src: &Vec<usize>| -> Vec<usize> {
+                    // junk between the entries: in-range positions that were not asked for, if any
+                    let mut o = Vec::new();
+                    for (k, &x) in src.iter().enumerate() {
+                        o.push(x);
+                        o.push(if x > 0 { x - 1 } else { k });
+                    }
+                    o
+                };
+                let m = match il {
+                    1 => {
+                        let st = Array1::from(rev);
+                        v.get_many_from_sorted_mut(&st.slice(ndarray::s![..;-1]))
+                    }
+                    2 => {
+                        let st = Array1::from(pad(&idxs));
+                        v.get_many_from_sorted_mut(&st.slice(ndarray::s![..;2]))
+                    }
+                    3 => {
+                        let mut p = pad(&rev);
+                        // reversed stepped view must start at the last real entry: drop the trailing junk
+                        p.pop();
+                        let st = Array1::from(p);
+                        v.get_many_from_sorted_mut(&st.slice(ndarray::s![..;-2]))
+                    }
+                    4 => v.get_many_from_sorted_mut(&Array1::from(idxs.clone()).into_shared()),
+                    _ => v.get_many_from_sorted_mut(&Array1::from(idxs.clone())),
+                };
                 // iteration order of the IndexMap is part of the contract
                 let keys: Vec<usize> = m.keys().cloned().collect();
                 let vals: Vec<T> = m.values().cloned().collect();
